@@ -49,6 +49,10 @@ GEN = {
     "pos": "Gen_NestedExec_pos.cfg",
     "sete": "Gen_NestedExec_sete.cfg",
     "execnest": "Gen_NestedExec_execnest.cfg",
+    # nested-errors stage of property C10 (lib/checks/c10.py): failing commands `fail c`
+    "c10err": "Gen_NestedExec_c10err.cfg",
+    "c10nest": "Gen_NestedExec_c10nest.cfg",
+    "c10nest2": "Gen_NestedExec_c10nest2.cfg",
 }
 
 # gen: (name, K, mode, every)   mode sim|real; every: replay every n-th program
@@ -84,6 +88,8 @@ def compact(p):
             s += ":" + t["s"] + (str(t["n"]) if t["n"] else "")
         if t["k"] == "exec":
             s += ":" + t["s"] + (str(t["n"]) if t["s"] == "found" else "")
+        if t["k"] == "fail":
+            s += ":" + t["s"]
         out.append(s)
     return " ".join(out)
 
@@ -163,19 +169,23 @@ def laws(cfg, k, wd, st, workers=4):
     vlib.log(f"[laws] {cfg} K={k}: laws hold on {r.distinct} program prefixes ({r.wall:.1f}s)")
 
 
-def _violation(rep, layer, cfgname, p, f, mode):
+def _violation(rep, layer, cfgname, p, f, mode, stage=None):
     tg = " ".join(sorted(f.get("tg") or []))
     key = {"layer": layer, "cfg": cfgname, "prog": compact(p), "e": f.get("e", 0), "t": f.get("t", 0),
            "why": f.get("why", ""), "tg": tg, "feat": f.get("feat", ""), "mode": mode}
     replay = {"p": p, "e": f.get("e", 0), "t": f.get("t", 0), "text": f.get("text"), "files": f.get("files", []),
               "flags": f.get("flags", []), "stdin": f.get("stdin", False), "mode": mode,
               "expected": f.get("expected"), "observed": f.get("observed")}
+    if stage:
+        # run as a stage of another property's check: say so, and name the concrete failing commands
+        key["stage"] = replay["stage"] = stage
+        key["inv"] = replay["inv"] = " | ".join(f.get("inv") or [])
     detail = (f"{layer} {cfgname}: the shell's run of the program differs from what NestedExec.tla prescribes "
               f"({f.get('why')})")
     rep.violation(key, detail, replay)
 
 
-def gen_and_replay(rep, wd, name, k, mode, every, st, variants, workers=4, jobs=4):
+def gen_and_replay(rep, wd, name, k, mode, every, st, variants, workers=4, jobs=4, stage=None):
     """Enumerate the programs of configuration `name` with size bound k (TLC)
     and replay every `every`-th of them on the simulated / real OS."""
     cfg = GEN[name]
@@ -221,7 +231,7 @@ def gen_and_replay(rep, wd, name, k, mode, every, st, variants, workers=4, jobs=
                 st.samples.append({"cfg": name, "mode": mode, "program": compact(rec["p"]), **rec["sample"]})
             for f in rec.get("fails", [])[:1]:
                 nfail += 1
-                _violation(rep, "S->I", name, rec["p"], f, mode)
+                _violation(rep, "S->I", name, rec["p"], f, mode, stage)
         if lost:
             rechecks = unclean = 0
             for i, line in enumerate(vlib.read_ndjson(gen)):
@@ -243,7 +253,7 @@ def gen_and_replay(rep, wd, name, k, mode, every, st, variants, workers=4, jobs=
                          "feat": "blank-line-only-input" if clean else "",
                          "expected": oks[:1], "observed": {"oc": lost[i]["lost"]}}
                     nfail += 1
-                    _violation(rep, "S->I", name, line["p"], f, mode)
+                    _violation(rep, "S->I", name, line["p"], f, mode, stage)
         st.programs += handled
         st.runs += runs
         st.pairs_ok += pairs
@@ -309,11 +319,13 @@ def _why(rec, info):
     return "rejected by Trace_NestedExec"
 
 
-def random_and_validate(rep, wd, n, size, mode, st, jobs=4, shards=6):
-    recs = os.path.join(wd, f"random-{mode}.ndjson")
-    full = os.path.join(wd, f"random-{mode}.full.ndjson")
+def random_and_validate(rep, wd, n, size, mode, st, jobs=4, shards=6, stage=None, label="random", extra=()):
+    """`extra`: further arguments of `yv-g07 random` (`--fail P`: planted failing commands;
+    `--table 1`: the catalogue of failing commands instead of random programs)."""
+    recs = os.path.join(wd, f"{label}-{mode}.ndjson")
+    full = os.path.join(wd, f"{label}-{mode}.full.ndjson")
     t0 = time.time()
-    base = ["random", "--n", n, "--size", size, "--mode", mode, "--tick", 2]
+    base = ["random", "--n", n, "--size", size, "--mode", mode, "--tick", 2] + list(extra)
     vlib.run_harness(PKG, base + ["--out", recs, "--full", full, "--jobs", jobs], timeout=3000)
     t1 = time.time()
     fulls = list(vlib.read_ndjson(full))
@@ -326,8 +338,8 @@ def random_and_validate(rep, wd, n, size, mode, st, jobs=4, shards=6):
     # (not asked when the difference is already nothing but the EXIT trap action that was not run)
     redo = [g for g in rejects if fulls[g].get("feats") and _why(fulls[g], verdicts[g]) != "EXIT trap action not run"]
     if redo:
-        recs2 = os.path.join(wd, f"random-{mode}.redo.ndjson")
-        full2 = os.path.join(wd, f"random-{mode}.redo.full.ndjson")
+        recs2 = os.path.join(wd, f"{label}-{mode}.redo.ndjson")
+        full2 = os.path.join(wd, f"{label}-{mode}.redo.full.ndjson")
         idx = [fulls[g]["i"] for g in redo]
         for a in range(0, len(idx), 400):
             part = idx[a:a + 400]
@@ -364,21 +376,21 @@ def random_and_validate(rep, wd, n, size, mode, st, jobs=4, shards=6):
             f = {"e": rec["e"], "t": rec["t"], "why": why, "tg": info.get("tg", []),
                  "feat": (rec["feats"][0] if feat.get(rec["i"]) else ""),
                  "text": rec.get("text"), "files": rec.get("files", []), "flags": rec.get("flags", []),
-                 "stdin": rec.get("stdin", False),
+                 "stdin": rec.get("stdin", False), "inv": rec.get("inv"),
                  "expected": {"tr": exp_tr, "st": info["st"]},
                  "observed": {"oc": rec["oc"], "tr": rec["tr"], "st": rec["st"], "detail": rec.get("detail", "")}}
-            _violation(rep, "I->S", "random", rec["p"], f, mode)
+            _violation(rep, "I->S", label, rec["p"], f, mode, stage)
         nskip = sum(skips.values())
         st.runs += len(fulls)
-        st.per_cfg[f"random/{mode}/size<={size}"] = {
+        st.per_cfg[f"{label}/{mode}/size<={size}"] = {
             "records": len(fulls), "accepted": nok, "rejected": len(rejects), "skipped": skips,
             "mean_observations_per_accepted_run": round(tr_total / max(1, nok), 2),
             "harness_s": round(t1 - t0, 1), "tlc_s": round(time.time() - t1, 1)}
         if fulls and len(st.samples) < 9:
             r0 = fulls[min(3, len(fulls) - 1)]
-            st.samples.append({"cfg": f"random/{mode}", "text": r0.get("text"), "files": r0.get("files"),
+            st.samples.append({"cfg": f"{label}/{mode}", "text": r0.get("text"), "files": r0.get("files"),
                                "observed": {"tr": r0["tr"], "st": r0["st"]}})
-    vlib.log(f"[i->s] {len(fulls)} random programs (size <= {size}, {mode}) executed ({t1 - t0:.1f}s) and judged by "
+    vlib.log(f"[i->s] {len(fulls)} {label} programs (size <= {size}, {mode}) executed ({t1 - t0:.1f}s) and judged by "
              f"Trace_NestedExec ({time.time() - t1:.1f}s): {nok} accepted, {len(rejects)} rejected, "
              f"{nskip} skipped as unspecified/diverging {skips}")
     os.remove(recs)
